@@ -405,8 +405,12 @@ class Recon:
                     t = ('phi', c, t, b) if pol else ('phi', c, b, t)
                 body_env[name] = t
         self.events.append(Event('loop_exit', conds, (), s))
-        for name in (assigned | set(stored)) - tnames:
+        for name in sorted((assigned | set(stored)) - tnames):
             if name in body_env:
+                entry = ('carried', name, env[name]) if name in env else None
+                if entry is not None and body_env[name] != entry:
+                    # how a loop-carried value is advanced by one iteration (needed even when the value after the loop is unused)
+                    self.events.append(Event('carry', conds, (entry, body_env[name]), s))
                 env[name] = ('after', s.lineno, body_env[name])
         for tn in tnames:
             env[tn] = ('after', s.lineno, body_env.get(tn))
@@ -535,6 +539,8 @@ def ckey(t):
         k = 'lv(' + ckey(t[2]) + ')'
     elif h == 'carried':
         k = 'cr(' + ckey(t[2]) + ')' if len(t) > 2 else 'cr'
+    elif h == 'after':
+        k = 'af(' + ckey(t[2]) + ')'          # the line number of the loop is not part of the ordering key
     elif h == 'call':
         k = 'call(' + t[1] + ',' + ','.join(ckey(x) for x in t[2]) + ';' + ','.join(kw + '=' + ckey(v) for kw, v in t[3]) + ')'
     else:
